@@ -3,7 +3,7 @@
 R1 reader/packer word tables agree on width, signedness class and byte order;
 R2 emit keeps output and output-length in step."""
 import re
-from ..core import callee_of, expr_walk, expr_str, return_defs, short, const_str, MissingAnchor
+from ..core import callee_of, expr_walk, expr_str, return_defs, short, const_str, MissingAnchor, expr_subst_args, simplify, inline_local_calls
 from .c06 import cell_of, WRITERS
 
 EXPLANATION = (
@@ -29,35 +29,59 @@ PACK_N = {'u': 'bitstr_ext::pack_int', 'i': 'bitstr_ext::pack_int', 'f': 'bitstr
 ORDER = {'le': 'Little', 'be': 'Big'}
 
 
+KNOWN = set(READ.values()) | set(READ_N.values()) | set(PACK.values()) | set(PACK_N.values()) | {'bitstr_ext::current_byteorder'}
+
+
+def _keep(n):
+    """names the tables are phrased in; any other bitstr_ext helper is looked through"""
+    return not n.startswith('bitstr_ext::') or n in KNOWN
+
+
+def _body_calls(fx, f, actuals, depth):
+    for bb, t in f.calls():
+        c = callee_of(t)
+        if not c or not (c.startswith('bitstr_ext::') or c.startswith('bitstr::')):
+            continue
+        args = []
+        for a in t['args']:
+            e = f.expr_of_operand(a)
+            if actuals is not None:
+                e = expr_subst_args(e, actuals)
+            args.append(simplify(inline_local_calls(fx, e, _keep)))
+        if not _keep(c) and c in fx.fns and depth > 0 and '{closure' not in c:
+            # an unnamed helper between the word and the reader/packer: its calls count as the word's
+            for x in _body_calls(fx, fx.fns[c], args, depth - 1):
+                yield x
+            continue
+        yield c, args, t.get('at'), f
+
+
 def single_call(fx, target):
-    """(callee, [const ints], [byteorder names], all callees) of a registered closure/fn body"""
+    """[(callee, [const ints], [byteorder names], at)] of a registered closure/fn body (helpers looked through)"""
     f = fx.fns.get(target)
     if f is None:
         return None
     calls = []
-    for bb, t in f.calls():
-        c = callee_of(t)
-        if c and (c.startswith('bitstr_ext::') or c.startswith('bitstr::')):
-            ints, orders = [], []
-            for a in t['args'][1:]:
-                e = f.expr_of_operand(a)
-                for x in expr_walk(e):
-                    if isinstance(x, tuple) and x[0] == 'const':
-                        c0 = x[1]
-                        if 'v' in c0 and 'usize' in f.ty(c0['t']):
-                            ints.append(c0['v'])
-                        cp = c0.get('cpath', '')
-                        if cp in ('bitstr::LITTLE', 'bitstr::BIG'):
-                            orders.append('Little' if cp.endswith('LITTLE') else 'Big')
-                    if isinstance(x, tuple) and x[0] == 'agg' and x[1] == 'bitstr::Byteorder':
-                        orders.append(x[2])
-                    if isinstance(x, tuple) and x[0] == 'call' and x[1] == 'bitstr_ext::current_byteorder':
-                        orders.append('current')
-                    if isinstance(x, tuple) and x[0] == 'call' and x[1] == 'cell::Cell::to_usize':
-                        ints.append('stack')
-                    if isinstance(x, tuple) and x[0] == 'arg':
-                        ints.append('arg%d' % x[1])
-            calls.append((c, ints, orders, t.get('at')))
+    for c, args, at, g in _body_calls(fx, f, None, 2):
+        ints, orders = [], []
+        for e in args[1:]:
+            for x in expr_walk(e):
+                if isinstance(x, tuple) and x[0] == 'const':
+                    c0 = x[1]
+                    if 'v' in c0 and 'usize' in g.ty(c0['t']):
+                        ints.append(c0['v'])
+                    cp = c0.get('cpath', '')
+                    if cp in ('bitstr::LITTLE', 'bitstr::BIG'):
+                        orders.append('Little' if cp.endswith('LITTLE') else 'Big')
+                if isinstance(x, tuple) and x[0] == 'agg' and x[1] == 'bitstr::Byteorder':
+                    orders.append(x[2])
+                if isinstance(x, tuple) and x[0] == 'call' and x[1] == 'bitstr_ext::current_byteorder':
+                    orders.append('current')
+                if isinstance(x, tuple) and x[0] == 'call' and x[1] == 'cell::Cell::to_usize':
+                    ints.append('stack')
+                if isinstance(x, tuple) and x[0] == 'arg':
+                    ints.append('arg%d' % x[1])
+        calls.append((c, ints, orders, at))
     return calls
 
 
